@@ -313,17 +313,7 @@ def build(ns, spec, src, conf_kw=None, hook=None):
     def default_hook(old, new):
         # What the user's hook sees: getCodeVersion() and what a replicated call issued FROM THE HOOK resolves to
         # (a real call on every method of the object and of every consumer, `_applyCommand` intercepted).
-        probe = []
-        for (o, orig) in sorted({(o, nm) for o, nm, _ in decls_of(spec)}):
-            key = orig if o == 0 else (id(b.targets[o]), orig)
-            try:
-                fn = b.obj._getFuncName(key)
-            except KeyError:
-                fn = None
-            cid = call_id(b, o, orig)
-            b.hook_calls += 1
-            probe.append((o, orig, fn, cid))
-        rec.append(("verChanged", old, new, b.obj.getCodeVersion(), probe))
+        rec.append(("verChanged", old, new, b.obj.getCodeVersion(), probe_calls(b)))
     conf.onCodeVersionChanged = hook if hook is not None else default_hook
     consumers = [g["C%d" % o]() for o in range(1, len(spec["objs"]))]
     obj = g["Obj"](ns["Node"]("a"), [], conf=conf, consumers=consumers, transportClass=ns["DummyTransport"])
@@ -470,8 +460,29 @@ def inject(b, state, rng=None):
             w[idx].append((term, make_cb(b, cb)))
 
 
+def probe_calls(b):
+    """One REAL replicated call per method of the object and of every consumer, made from where we are (a version hook,
+    a callback fired inside a dump load): [(obj, orig, _getFuncName or None, funcID or None)]."""
+    probe = []
+    for (o, orig) in sorted({(o, nm) for o, nm, _ in decls_of(b.spec)}):
+        key = orig if o == 0 else (id(b.targets[o]), orig)
+        try:
+            fn = b.obj._getFuncName(key)
+        except KeyError:
+            fn = None
+        cid = call_id(b, o, orig)
+        b.hook_calls += 1
+        probe.append((o, orig, fn, cid))
+    return probe
+
+
 def make_cb(b, cbid):
     def cb(res, err):
+        if err == 5 and res is None:
+            # (None, LEADER_CHANGED): fired inside __loadDumpFile for a command the dump covers; record what a command
+            # re-submitted from this callback would resolve to
+            b.rec.append(("cbOpen", cbid, b.obj.getCodeVersion(), probe_calls(b)))
+            return
         b.rec.append(("cb", cbid, res, err))
     cb.cbid = cbid
     return cb
@@ -529,6 +540,10 @@ def canon_real_events(b, rec, arg2idx):
             else:
                 o, orig, v, x = res
                 out.append(["cb", cbid, [[v, o, name_json("%s_v%d" % (orig, v))], x], err == 0])
+        elif r[0] == "cbOpen":
+            _, cbid, seen, probe = r
+            tab = sorted([o, name_json(orig), name_json(fn), cid] for o, orig, fn, cid in probe if fn is not None)
+            out.append(["cbOpen", cbid, seen, tab])
         elif r[0] == "verChanged" and len(r) == 5:
             _, old, new, seen, probe = r
             tab = sorted([o, name_json(orig), name_json(fn), cid] for o, orig, fn, cid in probe if fn is not None)
